@@ -314,3 +314,45 @@ def param_bound_to(db: ProgramDB, caller: FuncInfo, callee: FuncInfo, arg_name: 
                 if isinstance(a, ast.Name) and a.id == arg_name:
                     return pn
     return default
+
+
+CANON_BY_ANNOTATION = (("GraphState", "state"), ("Graph", "graph"), ("GraphNode", "node"), ("HyperNode", "node"), ("InterruptNode", "node"), ("RouteNode", "node"), ("IfElseNode", "node"), ("GateNode", "node"), ("FunctionNode", "node"))
+
+
+def canon_src(f: FuncInfo) -> str:
+    """Source of ``f`` with its parameters renamed to the canonical role name of their annotated type
+    (``GraphState`` -> state, ``Graph`` -> graph, node classes -> node): text-level facts about a private
+    helper then do not depend on what it calls its parameters."""
+    import copy as _copy
+
+    ren: dict[str, str] = {}
+    a = f.node.args
+    for arg in a.posonlyargs + a.args + a.kwonlyargs:
+        if arg.annotation is None:
+            continue
+        t = src(arg.annotation).split("|")[0].strip().split(".")[-1]
+        for cls_, canon in CANON_BY_ANNOTATION:
+            if t == cls_ and arg.arg != canon and canon not in ren.values():
+                ren[arg.arg] = canon
+                break
+    if not ren:
+        return src(f.node)
+    tree = _copy.deepcopy(f.node)
+    for x in ast.walk(tree):
+        if isinstance(x, ast.Name) and x.id in ren:
+            x.id = ren[x.id]
+        elif isinstance(x, ast.arg) and x.arg in ren:
+            x.arg = ren[x.arg]
+    return src(tree)
+
+
+def wrapper_param(f: FuncInfo, default: str = "node") -> str:
+    """The parameter through which a function receives the node it works for: the one annotated with a node
+    class, else ``default`` (a private helper may call it anything)."""
+    if default in f.param_names:
+        return default
+    a = f.node.args
+    for arg in a.posonlyargs + a.args + a.kwonlyargs:
+        if arg.annotation is not None and src(arg.annotation).split("|")[0].strip().split(".")[-1].endswith("Node"):
+            return arg.arg
+    return default
